@@ -85,8 +85,21 @@ KINDS = {
     'foreign*': (T('XOther', 1), 'pointer unresolved'),
     'foreign': (T('XOtherVal'), 'unresolved'),
 }
-KIND_NAMES = sorted(KINDS)
-RET_KINDS = ['void'] + [k for k in KIND_NAMES if k not in ('GError**',)]
+KIND_NAMES = sorted(KINDS) + ['usercb'] * 5      # 'usercb' = a callback typedef generated in the same case
+
+
+def kind_type(k):
+    """Type model of a parameter kind; 'usercb:FooFunc3' names a generated callback typedef."""
+    if k.startswith('usercb:'):
+        return T(k.split(':', 1)[1])
+    return KINDS[k][0]
+
+
+def kind_tags(k):
+    if k.startswith('usercb'):
+        return 'callback'
+    return KINDS[k][1]
+RET_KINDS = ['void'] + [k for k in sorted(KINDS) if k not in ('GError**',)]
 
 FUND_TYPES = ['gint', 'guint', 'utf8', 'filename', 'gpointer', 'gboolean', 'guint8', 'gdouble', 'gint64', 'gsize',
               'GType', 'gunichar', 'none', 'gchar']
@@ -235,7 +248,7 @@ def _callable(draw, idx, hostile, annotate):
     names = []
     for i, k in enumerate(kinds):
         nm = 'p%d' % i
-        if k == 'gpointer' and i > 0 and 'callback' in KINDS[kinds[i - 1]][1]:
+        if k == 'gpointer' and i > 0 and 'callback' in kind_tags(kinds[i - 1]):
             nm = 'user_data' if 'user_data' not in names else 'more_data%d' % i
         if k == 'GError**':
             nm = 'error'
@@ -255,7 +268,7 @@ def _callable(draw, idx, hostile, annotate):
 
 
 def _callable_decl(c):
-    params = [param(nm, KINDS[k][0]) for nm, k in zip(c['names'], c['kinds'])]
+    params = [param(nm, kind_type(k)) for nm, k in zip(c['names'], c['kinds'])]
     if c['varargs']:
         params.append({'ellipsis': True})
     ret = VOID if c['ret'] == 'void' else KINDS[c['ret']][0]
@@ -305,10 +318,27 @@ def api(draw, hostile=True, annotate=True, max_callables=6, with_gobject=True):
     decls = fixed_decls(order_seed, with_gobject)
     n = draw(st.integers(1, max_callables))
     callables = [draw(_callable(i, hostile, annotate)) for i in range(n)]
-    rec_fields = draw(st.lists(st.sampled_from(REC_FIELDS_POOL), min_size=1, max_size=5))
+    rec_fields = draw(st.lists(st.sampled_from(REC_FIELDS_POOL + ['usercb'] * 4), min_size=1, max_size=5))
+    # resolve 'usercb' to one of the callback typedefs generated in this case (the fixed FooCallback otherwise)
+    cbs = ['FooFunc%d' % c['idx'] for c in callables if c['shape'] == 'callback']
+
+    def _res(k, own=None):
+        if k != 'usercb':
+            return k
+        # C needs the typedef before its use: callback typedefs are emitted first (see below) and may
+        # only refer to callback typedefs with a smaller index
+        cands = [x for x in cbs if x != own]
+        if own in cbs:
+            cands = [x for x in cbs if int(x[7:]) < int(own[7:])]
+        if not cands:
+            return 'cb'
+        return 'usercb:' + draw(st.sampled_from(cands))
+    for c in callables:
+        c['kinds'] = [_res(k, 'FooFunc%d' % c['idx']) for k in c['kinds']]
+    rec_fields = [_res(k) for k in rec_fields]
     comments = []
     vfuncs = []
-    for c in callables:
+    for c in sorted(callables, key=lambda c: (c['shape'] != 'callback', c['idx'])):
         ident, d = _callable_decl(c)
         if d is None:
             vfuncs.append(c)
@@ -319,7 +349,7 @@ def api(draw, hostile=True, annotate=True, max_callables=6, with_gobject=True):
     # record body (fields incl. a length-annotated pair) - declared after the forward typedef
     fields = []
     for j, k in enumerate(rec_fields):
-        fields.append({'name': 'f%d' % j, 'type': KINDS[k][0]})
+        fields.append({'name': 'f%d' % j, 'type': kind_type(k)})
     decls.append({'d': 'compound', 'kind': 'struct', 'tag': '_FooRec', 'typedef': None, 'fields': fields})
     if annotate and draw(st.booleans()):
         comments.append(['/**\n * FooSkipped: (skip)\n *\n * Not for bindings.\n */', '/src/foo.c', 1000])
@@ -327,7 +357,7 @@ def api(draw, hostile=True, annotate=True, max_callables=6, with_gobject=True):
     if with_gobject:
         cls_fields = [{'name': 'parent_class', 'type': T('GObjectClass')}]
         for c in vfuncs:
-            params = [param('self', T('FooObj', 1))] + [param(nm, KINDS[k][0]) for nm, k in zip(c['names'], c['kinds'])]
+            params = [param('self', T('FooObj', 1))] + [param(nm, kind_type(k)) for nm, k in zip(c['names'], c['kinds'])]
             ret = VOID if c['ret'] == 'void' else KINDS[c['ret']][0]
             cls_fields.append({'name': 'slot_%d' % c['idx'], 'type': {'fp': {'ret': ret, 'params': params}}})
             if annotate and c['ann']:
